@@ -61,7 +61,7 @@ TStep ==
   /\ LET e == Events[l] IN
        /\ Consume(e)
        /\ ok' = Matches(e)
-       /\ Matches(e) \/ PrintT(<<"MISMATCH", tid, l, ToJson([ev |-> e.ev, spec |-> sk', out |-> op'])>>)
+       /\ IF Matches(e) THEN TRUE ELSE PrintT(<<"MISMATCH", tid, l, ToJson([ev |-> e.ev, spec |-> sk', out |-> op'])>>)
   /\ l' = l + 1
   /\ tid' = tid
 
